@@ -409,6 +409,19 @@ def run(prop, tier, seed, known):
                         badk = [k_ for k_ in want_ if abs(mp[k_] - want_[k_]) > 1e-9]
                         if badk:
                             fails.append('perfect melody estimate with %s: %s = %r (frequencies %s)' % (kw_, badk[0], float(mp[badk[0]]), fp_.tolist()))
+            # ---------------------------------------------------------------- transcription: a common pitch factor changes no score (C09); pitch
+            # deviations a few hundredths of a cent on either side of the tolerance (far above rounding error, far below any coarser grid)
+            kn_ = rng.randint(2, 6)
+            tri_ = np.array([[0.5 * j_, 0.5 * j_ + 0.4] for j_ in range(kn_)])
+            trp_ = np.array([rng.choice([220.0, 261.6255653005986, 329.6275569128699, 440.0]) for _ in range(kn_)])
+            tep_ = trp_ * 2.0 ** (np.array([rng.choice([49.97, 50.03, -49.97, -50.03, 0.0, 20.0]) for _ in range(kn_)]) / 1200.0)
+            t0_ = guard('transcription.precision_recall_f1_overlap', lambda: T.precision_recall_f1_overlap(tri_, trp_, tri_.copy(), tep_))
+            for fac_ in (2.0 ** (1 / 12.0), 1.5, 2.0 ** (7 / 12.0), 3.0, 0.5):
+                t1_ = guard('transcription.precision_recall_f1_overlap (scaled pitches)', lambda: T.precision_recall_f1_overlap(tri_, trp_ * fac_, tri_.copy(), tep_ * fac_))
+                if t0_ is not None and t1_ is not None and any(abs(a_ - b_) > 1e-9 for a_, b_ in zip(t0_, t1_)):
+                    fails.append('octave/transposition: multiplying all note pitches by %s changes the transcription scores: %s vs %s (ref %s, est %s)'
+                                 % (fac_, tuple(float(x_) for x_ in t0_), tuple(float(x_) for x_ in t1_), trp_.tolist(), tep_.tolist()))
+                    break
             # ---------------------------------------------------------------- multipitch: common transposition (C09), pitches on both sides of the octave seam
             nfm = rng.randint(1, 4)
             tm = np.arange(nfm) * 0.25
